@@ -367,6 +367,12 @@ func c10(ctx *Ctx) (*Outcome, error) {
 		// a definition of one name in two files of a run, equal up to its defaults: every referrer decodes with the
 		// defaults of its own file's definition
 		if c := sameNameTwinCase(ctx, i, sg.NewRng(ctx.Seed, fmt.Sprintf("C10-samename-%d", i))); c != nil {
+			// (default application is asserted for this stratum only: across the random reference shapes it meets
+			// defaults inside map values, which are C09's and C04's recorded territory - map-value-anon-struct)
+			c.Defaults = true
+			for _, g := range c.Group {
+				g.Defaults = true
+			}
 			cases = append(cases, c)
 		}
 	}
@@ -405,7 +411,7 @@ func c10(ctx *Ctx) (*Outcome, error) {
 		cases = append(cases, &sem.Case{Root: root, Sig: "witness:root-self-ref-untyped", NoAuto: true, Witness: "root-self-ref-untyped", Docs: []docgen.Doc{{V: doc, Class: "pinned", Label: "witness"}}})
 	}
 	cfg := &sem.Config{Prop: "C10", Tier: ctx.Tier, Seed: ctx.Seed, Cases: cases, Classes: docgen.Classes{"type": true, "required": true, "bound": true, "string": true, "items": true, "enum": true, "delopt": true}, Valid: 4, PerSite: 2, MaxDocs: 70,
-		Env: ctx.Env, Values: true, Defaults: true}
+		Env: ctx.Env, Values: true}
 	// a reference form that the generator refuses while it accepts the inlined twin is not transparent either
 	var gviol []Viol
 	refusedRef, cycleRuns := 0, 0
